@@ -31,6 +31,7 @@ def judge : Suite where
         else if h + d < n then ((), "bad:c02-message-silently-dropped")
         else if h + d > n then ((), "bad:c02-message-both-handled-and-dead-lettered")
         else if kind == "missing" ∧ h ≠ 0 then ((), "bad:c02-handled-by-nobody")
+        else if kind == "broadcast" ∧ d ≠ 0 then ((), "bad:c02-broadcast-to-a-living-child-became-a-dead-letter")
         else if kind == "reborn" ∧ d ≠ 0 then ((), "bad:c02-message-to-a-living-actor-became-a-dead-letter")
         else if kind == "backlog" ∧ args.getLast? == some "g" ∧ d ≠ 0 then ((), "bad:c02-graceful-terminate-dropped-queued-messages")
         else ((), "ok")
